@@ -701,16 +701,18 @@ void qlist_clear(qlist_t *list) {
  *  -ENOMEM : Memory allocation failure.
  */
 void *qlist_toarray(qlist_t *list, size_t *size) {
+    qlist_lock(list);
+
     if (list->num <= 0) {
+        qlist_unlock(list);
         if (size != NULL)
             *size = 0;
         errno = ENOENT;
         return NULL;
     }
 
-    qlist_lock(list);
-
-    void *chunk = malloc(list->datasum);
+    size_t datasum = list->datasum;
+    void *chunk = malloc(datasum);
     if (chunk == NULL) {
         qlist_unlock(list);
         errno = ENOMEM;
@@ -726,7 +728,7 @@ void *qlist_toarray(qlist_t *list, size_t *size) {
     qlist_unlock(list);
 
     if (size != NULL)
-        *size = list->datasum;
+        *size = datasum;
     return chunk;
 }
 
@@ -746,12 +748,13 @@ void *qlist_toarray(qlist_t *list, size_t *size) {
  *  Return string is always terminated by '\0'.
  */
 char *qlist_tostring(qlist_t *list) {
+    qlist_lock(list);
+
     if (list->num <= 0) {
+        qlist_unlock(list);
         errno = ENOENT;
         return NULL;
     }
-
-    qlist_lock(list);
 
     void *chunk = malloc(list->datasum + 1);
     if (chunk == NULL) {
